@@ -98,6 +98,10 @@ class Report:
             have = per_rule.get(rid, 0)
             if have < spec.get('min', 0):
                 unknown_baseline.append(f"rule={rid} matched {have} instances, baseline confirmed {spec['min']}")
+            unk = sum(1 for o in self.obs if o['rule'] == rid and o['verdict'] == UNKNOWN)
+            if unk > spec.get('max_unknown', 10 ** 9):
+                first = next(o for o in self.obs if o['rule'] == rid and o['verdict'] == UNKNOWN and o['key'] not in spec.get('unknown_keys', []))  if any(o['rule'] == rid and o['verdict'] == UNKNOWN and o['key'] not in spec.get('unknown_keys', []) for o in self.obs) else next(o for o in self.obs if o['rule'] == rid and o['verdict'] == UNKNOWN)
+                unknown_baseline.append(f"rule={rid}: {unk} instances are undecidable (baseline {spec.get('max_unknown')}), e.g. instance={first['key']} site={first['site']}: {first['detail'][:200]}")
             for key in spec.get('keys', []):
                 o = by_key.get((rid, key))
                 if o is None:
